@@ -130,7 +130,7 @@ class Gen:
 
     def generate(self, nops=20, late_join=None, pre_marks=None):
         r = self.r
-        self.emit('PEERS %d' % self.n)
+        self.emit('PEERS %d%s' % (self.n, ' v6' if self.profile == 'assets' and r.random() < 0.3 else ''))
         # registrations: mostly the same on every peer; sometimes one peer lacks one
         if self.profile == 'skinned' and 8 not in self.types:
             self.types = sorted(set(self.types) | {8})
@@ -198,8 +198,8 @@ def scenario(seed, profile='mixed', nops=20, **kw):
 # property-specific generators: histories that satisfy the premises of a property, so that its
 # oracle may demand the conclusion. Each returns (scenario text, meta for the oracle).
 
-def _header(r, n, types, regs=None):
-    lines = ['PEERS %d' % n]
+def _header(r, n, types, regs=None, v6=False):
+    lines = ['PEERS %d%s' % (n, ' v6' if v6 else '')]
     for p in range(n):
         for t in (regs[p] if regs else types):
             lines.append('OP %d reg %d' % (p, t))
@@ -411,6 +411,7 @@ def optin(seed, nops=16):
     lines.append('ROUND %d' % r.randint(6, 9))
     peers = [p for p in range(n) if p != late]
     marked, unmarked, excluded, val = [], [], set(), 10
+    carried, excluded_later = set(), []
     h = 0
     for _ in range(nops):
         c = r.random()
@@ -430,11 +431,25 @@ def optin(seed, nops=16):
                 if t not in ts:
                     lines.append('OP %d excl %d %d 1' % (p, h, t))
                     excluded.add((str(h), t))
-        elif c < 0.6 and (marked or unmarked):
+        elif c < 0.5 and (marked or unmarked):
             hh, owner = r.choice(marked + unmarked)
             t = r.choice(common + never)
             val += 1
             lines.append('OP %d write %d %d %d' % (owner, hh, t, val))
+            if (hh, owner) in marked and t in common and owner == 0:
+                # (exclusion is a per-peer marker: only the HOST's own entities, whose snapshot and live
+                #  updates both originate on the peer that carries the marker)
+                carried.add((hh, owner, t))
+        elif c < 0.6 and carried:
+            # exclusion added AFTER the component was synchronized, then private writes
+            hh, owner, t = r.choice(sorted(carried))
+            if (str(hh), t) not in excluded:
+                lines.append('DRAIN 60')
+                lines.append('OP %d excl %d %d 1' % (owner, hh, t))
+                lines.append('EXCLUDED_FROM_HERE %d %d' % (hh, t))
+                excluded_later.append((str(hh), t))
+                val += 1
+                lines.append('OP %d write %d %d %d' % (owner, hh, t, val))
         elif c < 0.8:
             val += 1
             kk = r.choice([0, 1, 2, 3])
@@ -451,7 +466,7 @@ def optin(seed, nops=16):
     lines.append('SLEEP 60')
     lines.append('DRAIN 80')
     return '\n'.join(lines) + '\n', dict(enabled=enabled, unmarked=[str(h) for h, _ in unmarked], never_types=never,
-                                         excluded=[(u, t) for (u, t) in excluded], common=common)
+                                         excluded=[(u, t) for (u, t) in excluded], excluded_later=excluded_later, common=common)
 
 
 def join(seed, nops=14):
@@ -459,7 +474,7 @@ def join(seed, nops=14):
     r = random.Random(seed)
     n = r.choice([2, 3, 3, 4])
     types = sorted(r.sample([0, 1, 2, 3, 7], r.randint(1, 3)))
-    lines = _header(r, n, types)
+    lines = _header(r, n, types, v6=(r.random() < 0.25))
     sw = (1, 1, 1) if r.random() < 0.6 else tuple(r.randint(0, 1) for _ in range(3))
     for p in range(n):
         lines.append('OP %d switches %d %d %d' % ((p,) + sw))
@@ -475,6 +490,20 @@ def join(seed, nops=14):
     published = set()
     when = r.randint(2, nops - 2)
     when2 = when + r.randint(1, 3)
+    pattern = r.random()
+    if pattern < 0.25 and n >= 3:
+        # the host publishes an image / audio, a client already in the session replaces it (the host takes
+        # it over), then somebody joins: the joiner must get the replacement
+        kk = r.choice([2, 3])
+        aid = 100 * (kk + 1) + 1
+        lines += ['OP 0 addasset %d %d %d' % (kk, aid, 901), 'SLEEP 40', 'DRAIN 60',
+                  'OP 1 addasset %d %d %d' % (kk, aid, 902), 'SLEEP 60', 'DRAIN 60']
+        published.add((kk, aid))
+    elif pattern < 0.45:
+        # the host publishes a material and later publishes the identical content again (everybody receives
+        # something equal to what it holds); afterwards a client changes it
+        lines += ['OP 0 addasset 0 150 903', 'DRAIN 60', 'OP 0 addasset 0 150 903', 'DRAIN 60']
+    shared_material = (0.25 <= pattern < 0.45)
     busy = r.random() < 0.6
     for i in range(nops):
         if i == when:
@@ -525,6 +554,8 @@ def join(seed, nops=14):
             _pace(r, lines, peers + ([joiner] if i >= when else []))
     if joiner2 is not None and when2 >= nops:
         lines.append('OP %d setup' % joiner2)
+    if shared_material:
+        lines += ['SLEEP 40', 'DRAIN 60', 'OP 1 addasset 0 150 904']
     lines.append('SLEEP 60')
     lines.append('DRAIN 80')
     return '\n'.join(lines) + '\n', dict(joiner=joiner, enabled={p: sw for p in range(n)}, types=types)
